@@ -396,7 +396,11 @@ def dialOp (toks : List String) : Option String :=
     let ipS (b : Bytes) : String := match b with
       | [a, b, c, d] => s!"{a.toNat}.{b.toNat}.{c.toNat}.{d.toNat}"
       | _ => "?"
-    let want := ",".intercalate ((Resolve.targets fr .tcp).map fun t => s!"{ipS t.ip}:{t.port}")
+    -- each attempt with the ECH config list of the record that produced the address ("-": none)
+    let echS (e : Option Bytes) : String := match e with
+      | some (x :: xs) => hex (x :: xs)
+      | _ => "-"
+    let want := ",".intercalate ((Resolve.targets fr .tcp).map fun t => s!"{ipS t.ip}:{t.port}/{echS t.ech}")
     let db ← (if dialled = "_" then some [] else unhex dialled)
     let got := (String.fromUTF8? (ByteArray.mk db.toArray)).getD "?"
     some (if want = got then "match" else s!"differ model {want} observed {got}")
